@@ -2,10 +2,14 @@
 """Offline validation of strref.py's printf reference against glibc printf (not run by the check).
 
 usage: python3 strref_validate.py      (needs gcc)
-Compiles a small C program, feeds it every asserted cell of the quick format grid and compares
-with strref.k_fmt. Expected output: "compared N mismatches 0".
+Compiles a small C program, feeds it every asserted cell of the quick format grid AND of the quick
+directive-syntax families (every width numeral 1..120, every precision numeral .0...40 plus the bare
+period / leading-zero / three-digit spellings, every non-canonical flag sequence of <= 2 flags; the
+same enumeration as checks/c15/fmtw.go fmtSyntaxGrid) and compares with strref.k_fmt. The C program
+gets the directive exactly as spelled (only the length modifier is normalised to ll for integers).
+Expected output: "compared N mismatches 0". %b is skipped when the C library does not know it.
 """
-import os, subprocess, sys, tempfile, itertools
+import os, shutil, subprocess, sys, tempfile, itertools
 sys.path.insert(0, os.path.dirname(os.path.abspath(__file__)))
 import strref
 
@@ -15,11 +19,11 @@ C_SRC = r'''
 #include <stdlib.h>
 /* reads: fmt \t kind \t value ; prints result in [] ; fmt uses ll/l forms suitable for long long / double */
 int main() {
-  char line[512];
+  char line[1024];
   while (fgets(line, sizeof line, stdin)) {
     line[strcspn(line, "\n")] = 0;
     char *f = strtok(line, "\t"); char *k = strtok(NULL, "\t"); char *v = strtok(NULL, "\t");
-    char out[512];
+    char out[8192];
     if (k[0] == 'i') { long long x = strtoll(v, NULL, 10); snprintf(out, sizeof out, f, x); }
     else if (k[0] == 'f') { double x = strtod(v, NULL); snprintf(out, sizeof out, f, x); }
     else { snprintf(out, sizeof out, f, v); }
@@ -35,34 +39,62 @@ def main():
     exe = os.path.join(d, "cfmt")
     open(src, "w").write(C_SRC)
     subprocess.check_call(["gcc", "-w", "-o", exe, src])
-    flagsets = [""] + list("-0+ #") + ["".join(c) for c in itertools.combinations("-0+ #", 2)]
+    fl1 = [""] + list("-0+ #")
+    flagsets = fl1 + ["".join(c) for c in itertools.combinations("-0+ #", 2)]
     widths = ["", "1", "5", "8"]
     precs = ["", ".0", ".3"]
-    verbs = ["d", "x", "X", "o", "e", "E", "f", "g", "G", "s", "lf", "le", "lg", "lld", "llx", "ld", "lx"]
+    verbs = ["d", "x", "X", "o", "b", "e", "E", "f", "g", "G", "s", "lf", "le", "lg", "lld", "llx", "ld", "lx",
+             "lX", "llX", "lo", "llo", "lb", "llb", "lE", "lG"]
     ivals = ["0", "1", "-1", "17", "255", "9223372036854775807", "-9223372036854775808"]
     fvals = ["0.0", "3.25", "-0.5", "1e10", "0.1", "2.5", "1e-5", "123456789.125", "0.5", "1234567.0"]
-    lines, exp = [], []
+    has_b = subprocess.run([exe], input="%llb\ti\t5\n", capture_output=True, text=True).stdout.strip() == "[101]"
+    specs = []  # (flags as spelled, width numeral, precision as spelled)
     for fl in flagsets:
         for w in widths:
             for p in precs:
-                for v in verbs:
-                    fmt = "%" + fl + w + p + v
-                    vals = [["i", x] for x in ivals] + [["f", x] for x in fvals]
-                    ans = strref.k_fmt({"fmt": fmt, "vals": vals})
-                    for (kind, val), a in zip(vals, ans):
-                        if not a.startswith("s:"):
-                            continue
-                        base = v[-1]
-                        if kind == "i" and base in "dxXo":
-                            ckind, cf = "i", "%" + fl + w + p + "ll" + base
-                        elif kind == "i" and base == "s":
-                            ckind, cf = "s", fmt
-                        else:
-                            ckind, cf = "f", fmt  # ints through float verbs are converted to double
-                        lines.append("%s\t%s\t%s" % (cf, ckind, val))
-                        exp.append((fmt, kind, val, bytes.fromhex(a[2:]).decode()))
+                specs.append((fl, w, p))
+    for w in range(1, 121):
+        for fl in fl1:
+            for p in ["", ".0", ".3", ".10"]:
+                specs.append((fl, str(w), p))
+    for p in ["." + str(k) for k in range(0, 41)] + [".", ".00", ".03", ".010", ".100"]:
+        for fl in fl1:
+            for w in ["", "5", "10"]:
+                specs.append((fl, w, p))
+    canon = set(flagsets)
+    seqs = [a for a in "-0+ #" if a not in canon] + [a + b for a in "-0+ #" for b in "-0+ #" if a + b not in canon]
+    for fl in seqs:
+        for w in ["", "5", "10", "100"]:
+            for p in ["", ".3"]:
+                specs.append((fl, w, p))
+    seen = set()
+    lines, exp = [], []
+    for fl, w, p in specs:
+        if (fl, w, p) in seen:
+            continue
+        seen.add((fl, w, p))
+        for v in verbs:
+            fmt = "%" + fl + w + p + v
+            vals = [["i", x] for x in ivals] + [["f", x] for x in fvals]
+            ans = strref.k_fmt({"fmt": fmt, "vals": vals})
+            for (kind, val), a in zip(vals, ans):
+                if not a.startswith("s:"):
+                    continue
+                base = v[-1]
+                if kind == "i" and base in "dxXob":
+                    if base == "b" and not has_b:
+                        continue
+                    ckind, cf = "i", "%" + fl + w + p + "ll" + base
+                elif kind == "i" and base == "s":
+                    ckind, cf = "s", fmt
+                else:
+                    ckind, cf = "f", fmt  # ints through float verbs are converted to double
+                lines.append("%s\t%s\t%s" % (cf, ckind, val))
+                exp.append((fmt, kind, val, bytes.fromhex(a[2:]).decode()))
     r = subprocess.run([exe], input="\n".join(lines) + "\n", capture_output=True, text=True)
+    shutil.rmtree(d, ignore_errors=True)
     outs = r.stdout.split("\n")
+    print("C library knows %b:", has_b)
     bad = 0
     for (fmt, kind, val, e), o in zip(exp, outs):
         if "[" + e + "]" != o:
